@@ -44,8 +44,18 @@ def foreign(rng, ft, k=None):
              (None, b"SECOND  BIN", 0x20, b, bytes(rng.randrange(256) for _ in range(max(1, len(b) * bpc - bpc // 2))))]
     kw.update(files=files, fatfill=fill, hi_bits=hi or None, label="FOREIGNVOL")
     img, info = fatspec.build(ft, **kw)
-    meta = dict(source="build", ft=ft, **{k2: v for k2, v in kw.items() if k2 in ("spc", "nf", "clusters", "fatsec", "rootent", "backup")})
-    return img, meta, len(fill) + len(hi)
+    # the reserved byte that holds the dirty flag in bit 0: its OTHER bits belong to other systems (NT: 0x02 = surface scan) and are part
+    # of the bytes that must come back unchanged
+    r1 = rng.choice([0, 0x02, 0x80, 0x82, 0x7E])
+    if r1:
+        b = bytearray(img)
+        o = 65 if ft == 32 else 37
+        b[o] = r1
+        if ft == 32 and kw.get("backup"):
+            b[6 * 512 + o] = r1
+        img = bytes(b)
+    meta = dict(source="build", ft=ft, reserved1=r1, **{k2: v for k2, v in kw.items() if k2 in ("spc", "nf", "clusters", "fatsec", "rootent", "backup")})
+    return img, meta, len(fill) + len(hi) + (1 if r1 else 0)
 
 
 def first_diff(a, b):
